@@ -436,3 +436,89 @@ PROPS.update({
             "nontrivial": lambda c: "for" in vlib.goal_tags(c),
             "assumptions": SEARCH_ASSUME},
 })
+
+
+# ----------------------------------------------------------------------------- C07 / C09
+
+def live_mc(ctx, name, scope, stepping):
+    consts = {"M": "3", "K": "600", "Tag": '"%s"' % name, "StepRun": "TRUE" if stepping else "FALSE"}
+    d = {"Emit": "TRUE"}
+    d.update(consts)
+    r = vlib.run_mc(ctx["prop"] + "_" + name, "MC_Live", d, ["Productive", "EmitCase"],
+                    {"Scope": scope, "Branches": "BranchesOf", "Labels": "LabelSet"},
+                    workers=8, properties=["Fair"] if stepping else None,
+                    spec="Spec" if stepping else "SafetySpec")
+    ctx["mc"].append(r)
+    return r
+
+
+def live_cases(ctx, res, prefix):
+    out = []
+    for n, c in enumerate(res["cases"]):
+        need = {k: v for k, v in c["need"].items() if v > 0}
+        out.append({"id": "%s-%s-%d" % (ctx["prop"], prefix, n), "kind": "program", "mode": "solver", "goal": c["goal"],
+                    "take": 3 * c["n"] + 10, "budget": 20 * c["ticks"] + 1000, "need": need, "noref": True,
+                    "model_ticks": c["ticks"], "after": 0})
+    return out
+
+
+def plan_c07(ctx):
+    r = live_mc(ctx, "fin", "FinScope", True)
+    add(ctx, live_cases(ctx, r, "f"))
+    r = live_mc(ctx, "grow", "GrowScope", False)
+    add(ctx, live_cases(ctx, r, "g"))
+    # the documented examples as queries
+    add(ctx, [query(ctx, "C07-doc-1", 1, [["conde", [[["never"]], [["eq", ["var", 1], ["num", 1]]]]]], take=1, fuel=6,
+                    budget=5000),
+              query(ctx, "C07-doc-2", 1, [["conde", [[["always"], ["eq", ["var", 1], ["num", 1]]],
+                                                    [["always"], ["eq", ["var", 1], ["num", 2]]]]]], take=8, fuel=10,
+                    budget=20000)])
+
+
+def plan_c09(ctx):
+    rng = ctx["rng"]
+    # laziness: taking exactly the answers the model needs terminates before the budget
+    r = live_mc(ctx, "grow", "GrowScope", False)
+    for c in live_cases(ctx, r, "lazy"):
+        c["take"] = (c["take"] - 10) // 3
+        if c["take"] > 0:
+            add(ctx, [c])
+    # fusedness: finite programs, four more next() calls after the first None
+    for i in range(T(ctx, 150, 3000)):
+        nq = rng.randint(1, 2)
+        add(ctx, [query(ctx, "C09-fused-%d" % i, nq, gen.search_program(rng, nq, rng.randint(1, 5)), after=4)])
+    # determinism: the same query R times (round-robin over harness processes = different hash
+    # seeds per run, every HashMap instance draws new keys even within one process)
+    R = T(ctx, 4, 12)
+    for i in range(T(ctx, 150, 2000)):
+        nq = rng.randint(1, 3)
+        if rng.random() < 0.5:
+            body = gen.flat_tree_program(rng, nq, rng.randint(3, 7), 2, p_neq=0.7)
+        else:
+            body = gen.search_program(rng, nq, rng.randint(2, 6))
+        g = "C09-det-%d" % i
+        for j in range(R):
+            c = query(ctx, "%s-%d" % (g, j), nq, body, group=g, after=2)
+            if j == R - 1:
+                c["gcheck"] = "same_seq"
+            add(ctx, [c])
+
+
+PROPS.update({
+    "C07": {"plan": plan_c07, "reasons": {"unfair_starvation", "missing_answer", "invented_answer"},
+            "rule": "disjunctions of 2-3 labelled branches (top level, nested, under a conjunction, inside loop) whose "
+                    "prefixes are drawn from {nothing, two-answer goal, always, never, fresh{always}} (finite-state: "
+                    "liveness property Fair under weak fairness) and additionally loop-producers (Productive, bounded). "
+                    "The real conde must deliver need[b] answers of every branch within 20x the model's ticks + 1000.",
+            "nontrivial": lambda c: bool({"always", "never", "loop"} & vlib.goal_tags(c)),
+            "assumptions": SEARCH_ASSUME + ["need[b] is a lower bound of what branch b yields alone (reference fuel 8, M = 3)",
+                                            "step budget = 20 x model ticks + 1000 (hook verif::tick)"]},
+    "C09": {"plan": plan_c09, "reasons": {"budget_exhausted", "unfair_starvation", "not_fused", "group_sequences_differ",
+                                          "did_not_terminate"},
+            "rule": "laziness: take n on the MC_Live.GrowScope producers ends before the budget; fusedness: four extra "
+                    "next() calls after the first None on finite programs; determinism: the same query run R times in "
+                    "different harness processes (hash seeds) must give the same answer sequence up to renaming and "
+                    "constraint-set order.  FD programs under forced constraint schedules are added by the FD plans.",
+            "nontrivial": lambda c: True,
+            "assumptions": SEARCH_ASSUME + ["hash-order sites that cannot be forced are covered by repetition (DESIGN 2.2)"]},
+})
